@@ -3,4 +3,4 @@
 import json,glob
 for f in sorted(glob.glob('/verif/evidence/C*.json')):
     e=json.load(open(f)); c=e['coverage']
-    print("| %s | %d | %d | %d | %.0f s |"%(e['property_id'],len(c.get('functions_under_contract',[])),c['obligations'],c.get('known_findings',0),e['wall_s']))
+    print("| %s | %d | %d | %d | %.0f s |"%(e['property_id'],len(c.get('functions_under_contract') or []),c['obligations'],c.get('known_findings',0),e['wall_s']))
